@@ -85,6 +85,20 @@ pub fn exec(case: &Value) -> Value {
                 _ => json!("bad"),
             })
             .collect::<Vec<_>>()),
+        "num_out" => json!(case["ns"]
+            .as_array()
+            .unwrap()
+            .iter()
+            .map(|n| match crate::event::fv_from_json(n) {
+                Ok(FieldValue::Number(n)) => json!({
+                    "i64": i64::try_from(n).ok(),
+                    "u64": u64::try_from(n).ok(),
+                    "f64": f64::try_from(n).ok().map(|f| if f.is_nan() { "nan".to_string() } else if f == 0.0 { format!("{:016x}", 0u64) } else { format!("{:016x}", f.to_bits()) }),
+                    "is": [n.is_int(), n.is_uint(), n.is_float()],
+                }),
+                _ => json!("bad"),
+            })
+            .collect::<Vec<_>>()),
         "hexparse" => json!(case["ts"]
             .as_array()
             .unwrap()
@@ -242,6 +256,33 @@ pub fn gen(tier: &str, seed: u64, out: &mut dyn FnMut(Value)) {
     }
     for chunk in ts.chunks(500) {
         out(json!({"op": "hexparse", "ts": chunk, "tag": "0x text", "nt": true}));
+    }
+    // the way out of the value domain: TryFrom<Number> for i64 / u64 / f64 and the representation tests, on integers of
+    // every representation and floats around the two range boundaries (whole, fractional, non-finite)
+    {
+        let mut ns: Vec<Value> = vec![];
+        for i in [0i64, 1, -1, 42, -42, i64::MAX, i64::MIN, i64::MAX - 1, i64::MIN + 1] {
+            ns.push(json!({ "i": i }));
+        }
+        for u in [0u64, 1, 42, i64::MAX as u64, i64::MAX as u64 + 1, u64::MAX, u64::MAX - 1] {
+            ns.push(json!({ "u": u }));
+        }
+        for f in [0.0f64, -0.0, 0.5, -0.5, 1.0, -1.0, 1.5, -1.5, 0.999, -0.999, 9007199254740992.0, 9223372036854775807.0, 9223372036854775808.0, 9223372036854774784.0,
+                  -9223372036854775808.0, -9223372036854777856.0, 18446744073709551615.0, 18446744073709551616.0, 18446744073709549568.0, 36893488147419103232.0, 1e300, -1e300,
+                  f64::INFINITY, f64::NEG_INFINITY, f64::NAN, 5e-324, -5e-324, 4294967296.5, -4294967296.5] {
+            ns.push(json!({"f": format!("{:016x}", f.to_bits())}));
+        }
+        for _ in 0..(if thorough { 20000 } else { 2000 }) {
+            let bits = rng.next();
+            let f = f64::from_bits(bits);
+            ns.push(json!({"f": format!("{:016x}", f.to_bits())}));
+            // around the boundaries: 2^63 and 2^64 scaled by a random nearby factor
+            let g = *rng.pick(&[9223372036854775808.0f64, -9223372036854775808.0, 18446744073709551616.0, 1.0, 0.0]) + (rng.below(4097) as f64 - 2048.0) * *rng.pick(&[1.0f64, 1024.0, 2048.0, 0.25]);
+            ns.push(json!({"f": format!("{:016x}", g.to_bits())}));
+        }
+        for chunk in ns.chunks(500) {
+            out(json!({"op": "num_out", "ns": chunk, "tag": "out of the value domain: TryFrom<Number>, is_int / is_uint / is_float", "nt": true}));
+        }
     }
     // text, paths, options
     let ss = ["", "a", "C:\\Windows\\System32", "/tmp/a\\b", "\\", "\\\\host\\share\\", "a/b\\c/d", "//", "/./x/../y", "~/x", "a\tb", "/bin/ls", "\u{e9}\u{10ffff}", "none", "42", " spaced ", "a\nb", "\"q\"", "8.8.8.8"];
